@@ -545,6 +545,10 @@ func (s *Store) CreateDB(name string) (db *DB, f *os.File, err error) {
 		TraceLog.Printf("[CreateDatabase(%s)]: %s", name, errorKeyValue(err))
 	}()
 
+	if !isValidDBName(name) {
+		return nil, nil, fmt.Errorf("invalid database name: %q", name)
+	}
+
 	s.mu.Lock()
 	defer s.mu.Unlock()
 
@@ -588,8 +592,20 @@ func (s *Store) CreateDB(name string) (db *DB, f *os.File, err error) {
 	return db, f, nil
 }
 
+// isValidDBName returns true if name can be used as the name of a database:
+// it becomes a directory below the data directory and a file name in the
+// mount, so it must be a single path element. Names arrive from the HTTP API
+// (import, halt, replication stream) as well as from the mount.
+func isValidDBName(name string) bool {
+	return name != "" && name != "." && name != ".." && !strings.ContainsAny(name, "/\\\x00")
+}
+
 // CreateDBIfNotExists creates an empty database with the given name.
 func (s *Store) CreateDBIfNotExists(name string) (*DB, error) {
+	if !isValidDBName(name) {
+		return nil, fmt.Errorf("invalid database name: %q", name)
+	}
+
 	s.mu.Lock()
 	defer s.mu.Unlock()
 
